@@ -161,6 +161,13 @@ func genSysHistory(rng *proto.Rng) sysIn {
 		case 4:
 			run.Cancel = fmt.Sprintf("wait:%d:end", rng.Intn(3))
 		}
+		if rng.Chance(1, 3) {
+			for _, o := range sysCatalogue {
+				if rng.Chance(1, 2) {
+					run.Initial = append(run.Initial, o.ID)
+				}
+			}
+		}
 		if r > 0 && rng.Chance(1, 15) {
 			run.EnvDel = []jid{proto.Pick(rng, sysCatalogue[2:]).ID}
 		}
